@@ -200,8 +200,12 @@ class Report:
 # --------------------------------------------------------------------------- pool
 
 
-def _pool_call(args: Tuple[Callable[..., Any], Any]) -> Any:
-    fn, item = args
+_POOL_FN: Any = None
+_POOL_ITEMS: List[Any] = []
+
+
+def _pool_call(i: int) -> Any:
+    fn, item = _POOL_FN, _POOL_ITEMS[i]
     try:
         return ("ok", fn(item))
     except Inconclusive as e:
@@ -211,13 +215,16 @@ def _pool_call(args: Tuple[Callable[..., Any], Any]) -> Any:
 
 
 def pmap(fn: Callable[[Any], Any], items: List[Any], procs: Optional[int] = None, chunksize: int = 1) -> List[Tuple[str, Any]]:
-    """Run fn over items in a fork pool. Results are ('ok', r) | ('inconclusive', why) | ('error', tb)."""
+    """Run fn over items in a fork pool (items and fn are inherited by fork, so they need not
+    be picklable). Results are ('ok', r) | ('inconclusive', why) | ('error', tb)."""
+    global _POOL_FN, _POOL_ITEMS
     procs = procs or ncpu()
+    _POOL_FN, _POOL_ITEMS = fn, list(items)
     if procs <= 1 or len(items) <= 1:
-        return [_pool_call((fn, it)) for it in items]
+        return [_pool_call(i) for i in range(len(items))]
     ctx = mp.get_context("fork")
     with ctx.Pool(min(procs, len(items))) as pool:
-        return pool.map(_pool_call, [(fn, it) for it in items], chunksize=chunksize)
+        return pool.map(_pool_call, range(len(items)), chunksize=chunksize)
 
 
 def run(cmd: List[str], timeout: int = 600, env: Optional[Dict[str, str]] = None, cwd: Optional[str] = None, input: Optional[str] = None) -> subprocess.CompletedProcess:
